@@ -51,6 +51,7 @@ func C15(c *Ctx) int {
 		o.Add(r)
 		c.HandleRepoCex(o, r, nil)
 	}
+	c.ValidateSamples(o, nil, 6)
 	o.Assumptions = []string{
 		"ranges satisfy 0 <= B <= E <= U+10FFFF (the validity C17 demands)",
 		"sort.Slice is modelled as an insertion sort calling the real less function",
